@@ -251,6 +251,9 @@ func tagReproduced(tag string, failed []string) bool {
 		if tag == "uncaught-panic" && strings.HasPrefix(f, "uncaught-panic") {
 			return true
 		}
+		if (tag == "goroutine-panic" || tag == "deadlock") && (strings.HasPrefix(f, "goroutine-panic") || strings.HasPrefix(f, "deadlock")) {
+			return true
+		}
 	}
 	return false
 }
